@@ -37,6 +37,7 @@ pub fn gen_case(prop: &str, seed: u64) -> Case {
             p.unicode_names_pct = 15;
             p.invalid_pct = 6;
             p.odd_ddl = true;
+            p.multi_drop = true;
             p.w_view = if avoid.on { 0 } else { 3 };
             p.w_index = if avoid.on { 0 } else { 2 };
             p.w_function = 2;
@@ -200,6 +201,7 @@ pub fn gen_case(prop: &str, seed: u64) -> Case {
             p.max_steps = 7;
             case.params.insert("avoid".into(), avoid.on as i64);
             p.unicode_names_pct = 30;
+            p.multi_drop = true;
             p.w_create = 8;
             p.w_drop = 4;
             p.w_insert = 30;
